@@ -320,8 +320,8 @@ def interp_obs(i, rnd, title):
                 feed_sum=k("feed_sum"), bio_sum=k("biofuels_sum") if hasattr(i, "biofuels_sum") else None)
 
 
-def run_world(opts, title):
-    """the world aggregate, run the way plot_manuscript_figures.call_global_scenario_runner does"""
+def run_world(opts, title, figures=False):
+    """the world aggregate, run the way plot_manuscript_figures.call_global_scenario_runner does (title None: the caller gives none)"""
     import pandas as pd
     from src.scenarios.run_scenario import ScenarioRunner
 
@@ -329,9 +329,10 @@ def run_world(opts, title):
     c, t, loader = sr.set_depending_on_option(opts)
     tab = pd.read_csv("data/no_food_trade/computer_readable_combined.csv")
     country_data = tab.iloc[-1]
-    r = sr.run_and_analyze_scenario(c, t, loader, create_pptx_with_all_countries=False, show_country_figures=False,
+    kw = {} if title is None else dict(title=title)
+    r = sr.run_and_analyze_scenario(c, t, loader, create_pptx_with_all_countries=False, show_country_figures=figures,
                                     figure_save_postfix="_world", country_data=country_data, save_all_results=False,
-                                    country_name="world", country_iso3="WOR", title=title)
+                                    country_name="world", country_iso3="WOR", **kw)
     return [None, float(c["POP"]), float(c["POP"]) * min(1.0, r.percent_people_fed / 100), {"world": r}]
 
 
@@ -374,7 +375,7 @@ def run_job(job):
     try:
         with contextlib.redirect_stdout(buf), contextlib.redirect_stderr(buf):
             if job["cc"] == "WOR":
-                out = run_world(opts, "v%d_WOR_%s" % (os.getpid(), job["preset"]))
+                out = run_world(opts, None if job.get("untitled") else "v%d_WOR_%s" % (os.getpid(), job["preset"]), bool(job.get("figures")))
             else:
                 if job.get("with"):
                     # one by-country call over several countries (one option dictionary for all of them); only the
@@ -402,7 +403,7 @@ def run_job(job):
                 else:
                     out = the_runner(ScenarioRunnerNoTrade).run_model_no_trade(
                         title="v%d_%s_%s" % (os.getpid(), job["cc"], job["preset"]), create_pptx_with_all_countries=False, scenario_option=opts,
-                        countries_list=[job["cc"]], return_results=True)
+                        countries_list=[job["cc"]], return_results=True, show_country_figures=bool(job.get("figures")))
         rec["ok"] = True
         world_map = None
         try:
